@@ -40,9 +40,13 @@ ASSUMPTIONS = [
     'arithmetic of the real-world value mapping is exact and compared exactly',
     'values outside the mapped range of a real-world value mapping are undefined (PS3.3 C.7.6.16.2.11): a refusal is expected',
     'YBR_FULL secondary captures are compared with pydicom\'s raw decode (pydicom >= 3 converts to RGB by default)',
+    'secondary captures the code refuses although the array is of a supported type are recorded as refusals, not failures: single-bit '
+    'arrays whose size is not a multiple of 8 (encode_frame: a stand-alone frame cannot end inside a byte, C07), RLE with 1 or 12 bits, '
+    'JPEG-LS / JPEG 2000 with 1 or 12 bits, JPEG 2000 / JPEG baseline (no encoder installed / lossy); the random stream avoids them',
+    'histories (stream history): native maps only; thorough tier every 4th map; float maps follow the open finding in the model',
 ]
 MODELLED_NOT_VERIFIED = ['pydicom file writer / reader', 'pydicom pixel decoders, RLE / JPEG-LS codecs',
-                         'highdicom frame access arithmetic (property C05) and pixel transform machinery (property C06)',
+                         'pixel transform machinery (property C06); the frame access arithmetic is C05\'s regenerated skeleton (tie_read_paths)',
                          'SQLite frame look-up table behind get_volume', 'numpy flatten / astype / tobytes / frombuffer']
 
 IMPLICIT, EXPLICIT = '1.2.840.10008.1.2', '1.2.840.10008.1.2.1'
